@@ -20,12 +20,12 @@ RULE = ('epochs: every boolean array up to length L (quick 11, thorough 15) plus
 TRUSTED = ['harness/C18.py (generators, canonicalisation of ndarray results to integer pairs)',
            'numpy sort/diff/flatnonzero/r_/c_ and basic slice assignment as modelled in coq/Runs/Model.v and coq/Common/PySlice.v '
            '(exercised by the correspondence, not proved)']
-ASSUMPTIONS = ['the theorems are about pad=0 (the only form the package uses); pad>0 is covered by the correspondence '
-               '(epochs_pad_model) and by the oracle, not by a theorem',
+ASSUMPTIONS = ['the theorems and the oracle are about pad=0 (the only form the package uses; pad is outside the property text); pad>0 is '
+               'compared with the faithful model epochs_pad_model only (incl. the wrapped leading slice when 0 < start < pad and the '
+               'ValueError on a read-only array)',
                'smooth/debounce theorems assume non-empty intervals (s < e), as produced by epochs',
                'integer / float input arrays hold only the values 0 and 1 (a boolean signal)',
-               'interval arrays passed to debounce_epochs are ndarrays (the function indexes columns); read-only input arrays '
-               'are legal for debounce_epochs (it copies) but make epochs / smooth_epochs raise (see known_findings / report)']
+               'interval arrays passed to debounce_epochs are ndarrays (the function indexes columns)']
 
 DTYPES = {'bool': bool, 'int8': np.int8, 'uint8': np.uint8, 'int32': np.int32, 'int64': np.int64, 'float64': np.float64}
 
@@ -227,7 +227,8 @@ def impl(case):
     if k == 'edges':
         x = _bool_array(case)
         r, f = util.edge_rising(x), util.edge_falling(x)
-        assert r.dtype == bool and f.dtype == bool and r.shape == x.shape == f.shape
+        # (for an empty input np.r_[0, diff] has one element: the masks are then [False], which marks no position)
+        assert r.dtype == bool and f.dtype == bool and r.shape == f.shape == (max(len(x), 1),)
         return {'r': [int(i) for i in np.flatnonzero(r)], 'f': [int(i) for i in np.flatnonzero(f)],
                 'xa': [int(v) for v in x]}
     if k == 'smooth':
@@ -235,12 +236,13 @@ def impl(case):
         arg = _interval_arg(case['l'], kind)
         if kind is None:
             return _pairs(util.smooth_epochs(arg))
-        try:
-            r = _pairs(util.smooth_epochs(arg))
-        except ValueError:
-            return {'r': None}
-        # the very same object again: whatever the first call did to it, it still denotes the caller's intervals
-        return {'r': r, 'r2': _pairs(util.smooth_epochs(arg))}
+        out = util.smooth_epochs(arg)
+        r = _pairs(out)
+        unchanged = _pairs(arg) == [list(p) for p in case['l']]
+        if isinstance(out, np.ndarray) and out.size and out.flags.writeable:
+            out[...] = -5                          # the caller owns the result
+        # the very same object again
+        return {'r': r, 'r2': _pairs(util.smooth_epochs(arg)), 'input_unchanged': unchanged}
     if k == 'debounce':
         dt = case.get('dt')
         if dt is None:
@@ -277,7 +279,8 @@ def term(case, res):
     k = case['k']
     if k == 'epochs':
         r, xa = _plain(case, res)
-        if case.get('ro'):
+        if case.get('ro') and case.get('pad', 0) != 0:
+            # padding writes into the caller's array: a read-only one makes the call raise iff there is an edge
             return f"check_epochs_ro {blist(case['x'])} {optlit(r, pairlist)} && {'true' if xa == case['x'] else 'false'}"
         t = f"check_epochs_pad {zlit(case.get('pad', 0))} {blist(case['x'])} {blist(xa)} {optlit(r, pairlist)}"
         if 'pad' not in case:
@@ -288,11 +291,9 @@ def term(case, res):
     if k == 'smooth':
         if not isinstance(res, dict):
             return f"check_smooth {pairlist(case['l'])} {pairlist(res)}"
-        if res['r'] is None:
-            # the in-place sort refuses a read-only array (model: the code raises iff it reaches the sort)
-            return 'true' if (case['kind'] == 'ro' and case['l']) else 'false'
         return (f"check_smooth {pairlist(case['l'])} {pairlist(res['r'])} && "
-                f"check_smooth {pairlist(case['l'])} {pairlist(res['r2'])}")
+                f"check_smooth {pairlist(case['l'])} {pairlist(res['r2'])} && "
+                f"{'true' if res['input_unchanged'] else 'false'}")
     if k == 'debounce':
         if not isinstance(res, dict):
             return f"check_debounce {zlit(case['d'])} {pairlist(case['l'])} {pairlist(res)}"
@@ -308,25 +309,6 @@ def nontrivial(case, res):
     if isinstance(res, dict):
         return bool(res.get('r') or res.get('f'))
     return bool(res)
-
-
-def _dilated(x, pad):
-    """runs of x grown by pad at every edge inside the array (a run touching an array end has no edge there), clipped, merged"""
-    n = len(x)
-    y = list(x)
-    for s, e in _runs(x):
-        if s > 0:
-            for i in range(max(0, s - pad), s):
-                y[i] = 1
-        if e < n:
-            for i in range(e, min(n, e + pad)):
-                y[i] = 1
-    return y
-
-
-def _wraps(case):
-    pad = case.get('pad', 0)
-    return any(0 < s < pad for s, _ in _runs(case['x']))
 
 
 def _debounce_want(l, d):
@@ -362,12 +344,6 @@ def oracle(case, res):
     k = case['k']
     if k == 'epochs':
         r, xa = _plain(case, res)
-        if case.get('ro'):
-            # documented limitation found by the audit: the slice assignment of the pad loop refuses a read-only
-            # array even for pad = 0; judged only when the call returned
-            if r is not None and r != _runs(case['x']):
-                return f'epochs returned {r}, maximal runs are {_runs(case["x"])}'
-            return None
         pad = case.get('pad', 0)
         if pad == 0:
             want = _runs(case['x'])
@@ -375,13 +351,7 @@ def oracle(case, res):
                 return f'epochs returned {r}, maximal runs are {want}'
             if xa != case['x']:
                 return f'epochs(pad=0) changed the caller\'s array to {xa}'
-            return None
-        # pad > 0: the answer is exactly the run structure of the array the call leaves behind ...
-        if r != _runs(xa):
-            return f'epochs(pad={pad}) returned {r}, but the runs of the array it left in x are {_runs(xa)}'
-        # ... and that array is x with every run grown by pad (where the leading slice x[s-pad:s] does not wrap)
-        if not _wraps(case) and xa != _dilated(case['x'], pad):
-            return f'epochs(pad={pad}) left {xa}; every run grown by {pad} gives {_dilated(case["x"], pad)}'
+        # pad > 0 is outside the property text (coordinator ruling): compared with the model only, never judged here
         return None
     if k == 'edges':
         n = len(case['x'])
@@ -396,8 +366,8 @@ def oracle(case, res):
     if k == 'smooth':
         if not isinstance(res, dict):
             return _smooth_msg(case['l'], res)
-        if res['r'] is None:
-            return None if (case['kind'] == 'ro' and case['l']) else 'smooth_epochs raised ValueError on a legal interval set'
+        if not res['input_unchanged']:
+            return 'smooth_epochs changed the interval set the caller passed in'
         return _smooth_msg(case['l'], res['r']) or _smooth_msg(case['l'], res['r2'], 'smooth_epochs (second call on the same object)')
     if k in ('debounce', 'pipe'):
         l = case['l'] if k == 'debounce' else _runs(case['x'])
@@ -406,9 +376,10 @@ def oracle(case, res):
             return None if res == want else f'debounce_epochs returned {res}, expected {want}'
         if res['r'] != want:
             return f'debounce_epochs returned {res["r"]}, expected {want}'
+        if not res['input_unchanged']:
+            return 'debounce_epochs changed the interval array the caller passed in'
         if res['r2'] != want:
-            return (f'debounce_epochs asked again about the same array returned {res["r2"]}, expected {want} '
-                    f'(input array unchanged: {res["input_unchanged"]})')
+            return f'debounce_epochs asked again about the same array returned {res["r2"]}, expected {want}'
     return None
 
 
